@@ -236,10 +236,15 @@ pub fn xforms(tree: &Tree) -> Vec<Xform> {
     tree.walk(&mut |_| nodes += 1);
     sites.extend((0..nodes).map(Some));
     let mut chance_sites = Vec::new();
+    // chance nodes whose weights (and their sum, and three times each) are exact in binary
+    let mut exact_sites = Vec::new();
     let mut index = 0;
     tree.walk(&mut |n| {
-        if let Tree::C(..) = n {
+        if let Tree::C(_, outs) = n {
             chance_sites.push(index);
+            if outs.iter().all(|(w, _)| (w * 1048576.0).fract() == 0.0 && w.abs() < 1073741824.0) {
+                exact_sites.push(index);
+            }
         }
         index += 1;
     });
@@ -259,6 +264,14 @@ pub fn xforms(tree: &Tree) -> Vec<Xform> {
             // one node of a shared chance infoset rescaled by a power of two: the normalised
             // probabilities stay bitwise equal, so the game stays valid
             res.push(Xform::ChanceScale(Some(*site), c));
+        }
+    }
+    // one node (possibly of a shared chance infoset) rescaled by 3: with exact weights a / s and
+    // 3a / 3s are the same real number, so the correctly rounded quotients are the same double and
+    // the game stays valid with the same probabilities
+    for site in &exact_sites {
+        for factor in [3.0, 7.0, 11.0] {
+            res.push(Xform::ChanceScale(Some(*site), factor));
         }
     }
     res
@@ -379,6 +392,14 @@ pub fn run(ctx: &Ctx) -> i32 {
     let mut games: Vec<(String, Tree)> = skels.iter().enumerate().filter(|(_, s)| super::has_decision(s)).map(|(i, s)| (format!("u{}", i), fill_distinct(s, i))).collect();
     games.extend(families().into_iter().filter(|(n, _)| !n.starts_with("rare_chance_1e3") && !n.starts_with("rare_chance_1e4")));
     games.extend(super::c06::collision_games());
+    // shared chance infosets whose weight sums are not powers of two (the universe's are, on purpose)
+    {
+        use crate::tree::{c, p, t};
+        for (label, ws) in [("2_3", vec![2.0, 3.0]), ("1_2", vec![1.0, 2.0]), ("3_1_1", vec![3.0, 1.0, 1.0]), ("1_9", vec![1.0, 9.0])] {
+            let node = |shift: f64| c(Some("k"), ws.iter().enumerate().map(|(i, w)| (*w, t(shift + i as f64))).collect());
+            games.push((format!("shared_chance_{}", label), p(0, "r", vec![("a", node(-1.0)), ("b", p(1, "z", vec![("l", node(0.5)), ("r", t(0.25))]))])));
+        }
+    }
     ctx.set("games", json!(games.len()));
     let total_x = std::sync::atomic::AtomicU64::new(0);
     games.par_iter().enumerate().for_each(|(gi, (name, tree))| {
